@@ -1,0 +1,13 @@
+//go:build verif
+
+// Machine-checked contract for the indicator-backtest program (read by /verif/govc; comment-only).
+
+package main
+
+// what the command line says is what the backtest uses (C13): the number of workers and the look-back window reach
+// the Backtest unchanged - the program does not reassign the variables the flag package fills in (attr frozen), and
+// Backtest.Run leaves them as they are. Flag values are not validated: what the callees require of them is assumed.
+//@ func main
+//@ attr callrequires = assumed
+//@ attr frozen = workers, lastDays, repositoryName, repositoryConfig, reportName, reportConfig, addSplits, addAnds
+//@ guarantees[C13] "flags-reach-the-backtest" backtester.Workers == workers && backtester.LastDays == lastDays
